@@ -382,6 +382,88 @@ def logger_fields(rep, tier):
     return r.distinct, n
 
 
+def header_format(rep, tier):
+    """HeaderFormat.tla: every format string enumerated by TLC goes through the real get_auto_header_format (text must
+    equal the specification's), through str.format (the claimed width / alignment / padding of every header cell must be
+    what Python really renders, next to the rendered data cell) and, for single cells, through Logger.add_field."""
+    from quansino.io.logger import Logger
+    from quansino.utils.strings import get_auto_header_format
+
+    r = run_tlc("HeaderFormat", "MC_HeaderFormat.cfg", workers=1, env={"HDR_DEEP": "1"} if tier == "thorough" else {}, timeout=900)
+    if not r.ok:
+        if r.invariant_violated or r.property_violated:
+            rep.violation(f"model:header:{(r.invariant_violated or ['?'])[0]}", "TLC: HeaderFormat.tla violated", {"tlc": r.out[-2000:]})
+        else:
+            rep.error(f"TLC failed on HeaderFormat: {r.out[-1200:]}")
+        return 0, 0
+    sample = {"f": 0.5, "e": 0.5, "g": 0.5, "": 0.5, "d": 5, "s": "ab"}
+    n = nrendered = 0
+    for line in r.out.splitlines():
+        line = line.strip()
+        if not line.startswith('"@@'):
+            continue
+        case = json.loads(json.loads(line)[2:])
+        n += 1
+        fmt, want = case["fmt"], case["header"]
+        try:
+            got = get_auto_header_format(fmt)
+        except Exception as ex:  # noqa: BLE001
+            rep.violation(f"header-format:raise:{type(ex).__name__}", f"get_auto_header_format({fmt!r}) raised {ex!r}", {"case": case})
+            continue
+        rep.count(("header-format", len(case["cells"]), any(c["plain"] for c in case["cells"])), nontrivial=True)
+        if n % 400 == 1:
+            rep.sample({"data_format": fmt, "expected_header_format": want})
+        if got != want:
+            rep.violation("header-format:text", f"get_auto_header_format({fmt!r}) = {got!r}; the specification's derivation gives {want!r}", {"case": case, "got": got})
+            continue
+        names = ["Nm"] * len(case["cells"])
+        try:
+            got.format(*names)
+        except Exception as ex:  # noqa: BLE001
+            rep.violation("header-format:invalid", f"the header format {got!r} derived from {fmt!r} cannot format names: {ex!r}", {"case": case})
+            continue
+        for c in case["cells"]:
+            if c["bare"]:
+                continue
+            hcell = c["head"].format("Nm")
+            nm = (c["head"].split(":")[0] + "}").format("Nm")      # the name as the cell's prefix (field number, conversion) shows it
+            w = c["width"]
+            okw = len(hcell) == max(w, len(nm))
+            pad = hcell.replace(nm, "", 1)
+            okpad = set(pad) <= ({"0"} if c["zeropad"] else {" "})
+            oka = {">": hcell.endswith(nm), "<": hcell.startswith(nm), "^": abs((len(hcell) - len(nm)) // 2 - hcell.find(nm)) <= 1}[c["align"]]
+            if not (okw and okpad and oka):
+                rep.violation("header-format:render", f"header cell {c['head']!r} renders {hcell!r}; the specification claims width {w}, alignment {c['align']!r}, zero padding {c['zeropad']}", {"case": case, "cell": c})
+                continue
+            if c["plain"] and c["datawidth"]:
+                try:
+                    dcell = c["data"].format(sample[c["type"]])
+                except (ValueError, TypeError):
+                    continue   # not a data format Python accepts for this type (e.g. grouping of a string)
+                if len(dcell) != c["datawidth"]:
+                    continue   # the sample value does not fit the cell: Python widens it, no claim
+                nrendered += 1
+                if len(dcell) != len(hcell):
+                    rep.violation("header-format:width", f"plain data cell {c['data']!r} renders {dcell!r} ({len(dcell)} wide) under header cell {hcell!r} ({len(hcell)} wide)", {"case": case, "cell": c})
+        if len(case["cells"]) == 1 and not case["cells"][0]["bare"]:
+            c = case["cells"][0]
+            try:
+                c["data"].format(sample[c["type"]])
+            except (ValueError, TypeError):
+                continue
+            buf = io.StringIO()
+            lg = Logger(buf, 1)
+            lg.add_field("Nm", (lambda v=sample[c["type"]]: v), fmt)
+            lg.write_header()
+            lg()
+            lines = buf.getvalue().split("\n")
+            if lines[0] != want.format("Nm") or lines[1] != fmt.format(sample[c["type"]]):
+                rep.violation("header-format:logger", f"a Logger with one field of format {fmt!r} writes {lines[:2]}; expected header {want.format('Nm')!r} over {fmt.format(sample[c['type']])!r}", {"case": case, "text": buf.getvalue()})
+    if n and not nrendered:
+        rep.error("header-format layer rendered no plain data cell (vacuous)")
+    return r.distinct, n
+
+
 def observer_ownership(rep, tier):
     """Observers.tla: every action sequence (attach / detach / re-assign file / close observer / close manager)
     enumerated by TLC is replayed on real TextObserver / ObserverManager objects; handle states must match."""
@@ -735,6 +817,9 @@ def run(tier: str) -> int:
     sl, nl = logger_fields(rep, tier)
     states += sl
     rep.add(logger_field_histories=nl)
+    sh, nh = header_format(rep, tier)
+    states += sh
+    rep.add(header_format_strings=nh)
     rep.add(states=states, transitions=trans, traces_validated_against_impl=len(recs), evaluations=ncrash + nkill, file_operations_recorded=nops, crash_contents_judged=ncrash, real_crashes=nkill, exhaustive=True,
             rule="crash points: between every two consecutive file operations (write / flush / seek / truncate) of every Logger, TrajectoryObserver and RestartObserver call of grand-canonical runs whose serialized state grows and shrinks, modes 'a' and 'w'; for each crash point every prefix of the unflushed buffer (chunk boundaries and three byte offsets inside each chunk) is a surviving content; distinct = (file kind, mode, seed) logs + real kills; each content is judged by the real readers, the op logs by TLC (Files_Trace.tla), and sampled crash points by real forked processes dying before the operation")
     rep.assumptions += ["CPython may flush its buffer at any time, never reorders: survivors = disk + a prefix of the buffer", "observers receive user-owned handles on real files (the documented IO argument); handles are opened with default buffering",
